@@ -6,7 +6,7 @@ from vlib import common
 # which design variant of ATP.tla the CURRENT code implements (changed together with the repairs)
 DESIGN = dict(MergedExit=True, LateClose=True, SharedDecoder=True)
 
-DROP = {"e.wfail", "t.c2s.wfail", "s.stdin.close", "t.s2c.wfail", "t.s2c.rfail", "t.s2c.rclose",
+DROP = {"e.wfail", "e.cancel", "t.c2s.wfail", "s.stdin.close", "t.s2c.wfail", "t.s2c.rfail", "t.s2c.rclose",
         "s.step.done", "s.closure.fatal", "c.loop.start"}
 
 
